@@ -100,6 +100,12 @@ CLAIMED = {
    design_ref="DESIGN.md 4.8, 5 (C06)",
    note="Known divergence outside the rules: Python float values keep the double (DESIGN.md section 9).",
    technique="fact-table extraction from clang AST / Python ast and table agreement (writer = reader, C = Python)"),
+ "C18": dict(
+   category="other",
+   text="Inventory and agreement of what the checkers assert, decided from source: every assertion of BTree_check_inner (22 translation units) and of _Tree._check is normalised to a predicate atom with scope; each pointer/shape corruption class of the property (leaf linking, child-kind uniformity, node non-emptiness) must be covered in both implementations, no assertion may be weakened by a disjunction, and the two atom sets must agree; in BTrees.check the three key comparisons are made for every key and reach AssertionError, and the key range handed to each child is extracted as a decision table and must be lo'=keys[i-1]|lo, hi'=keys[i]|hi. These are necessary conditions for 'detect every corruption'; that every valid tree is accepted and every concrete corruption caught is not decided.",
+   design_ref="DESIGN.md 4.8, 5 (C18)",
+   note="State cracking (crack_btree/crack_bucket) is trusted.",
+   technique="predicate-inventory extraction from clang AST / Python ast, sibling agreement, small decision table for range propagation"),
 }
 
 NA_PENDING = "check not built yet (engine under construction); see DESIGN.md section 11"
